@@ -112,7 +112,7 @@ func (t *Task) View() *SyncView {
 				v.ERSCreates = append(v.ERSCreates, c)
 			case c.Kind == KERS && c.Verb == "delete":
 				v.ERSDeletes = append(v.ERSDeletes, c)
-			case c.Verb == "updatestatus":
+			case c.Verb == "updatestatus" || c.Verb == "patchstatus":
 				v.StatusWrites = append(v.StatusWrites, c)
 			case c.Kind == KEDS && c.Verb == "update":
 				v.SpecWrites = append(v.SpecWrites, c)
